@@ -144,6 +144,43 @@ impl BufRead for ChunkyBuf<'_> {
     }
 }
 
+/// `ChunkyBuf` whose `read_until` is a plain byte loop with the contract of the std default method
+/// (append up to and including the delimiter, or up to EOF; return the number of bytes appended).  The std
+/// default goes through core's word-at-a-time memchr and `Vec::extend_from_slice` with symbolic lengths,
+/// which do not fit; that code is std's, not noodles'.
+pub struct ChunkyLines<'a>(pub ChunkyBuf<'a>);
+
+impl Read for ChunkyLines<'_> {
+    fn read(&mut self, buf: &mut [u8]) -> io::Result<usize> {
+        self.0.read(buf)
+    }
+}
+
+impl BufRead for ChunkyLines<'_> {
+    fn fill_buf(&mut self) -> io::Result<&[u8]> {
+        self.0.fill_buf()
+    }
+
+    fn consume(&mut self, amt: usize) {
+        self.0.consume(amt)
+    }
+
+    fn read_until(&mut self, byte: u8, buf: &mut Vec<u8>) -> io::Result<usize> {
+        // the result of read_until does not depend on the window sizes: one loop over what is left
+        let mut n = 0;
+        let mut done = false;
+        while self.0.pos < self.0.data.len() && !done {
+            let b = self.0.data[self.0.pos];
+            buf.push(b);
+            done = b == byte;
+            self.0.pos += 1;
+            n += 1;
+        }
+        self.0.window = 0;
+        Ok(n)
+    }
+}
+
 /// What a `FaultySink` does. Call indices count `write` calls from 0; `u32::MAX` = never.
 /// Harnesses pass CONCRETE indices (one instance per index, or a small loop): with a symbolic
 /// index every call site carries a symbolic io::Error whose drop glue CBMC must explore
@@ -298,4 +335,47 @@ pub fn kind_of<T>(r: io::Result<T>) -> Result<T, io::ErrorKind> {
             Err(k)
         }
     }
+}
+
+/// Model of `std::str::from_utf8` (std code, not noodles'): the real validator's word-at-a-time fast path
+/// plus the boxed Utf8Error do not fit CBMC under symbolic bytes (>14 GB for a 2-byte field).  EXACT on
+/// byte strings made only of ASCII bytes, 2-byte lead bytes C2..=DF and continuation bytes 80..=BF: valid
+/// iff every lead byte is followed by a continuation byte and no continuation byte stands alone.  Any other
+/// byte violates the model's precondition, which is asserted (harnesses assume it).  The Err value is a
+/// genuine Utf8Error (obtained from the un-stubbed from_utf8_mut on a constant); its fields are not the
+/// ones of the real error -- noodles only wraps it in io::Error.
+pub fn from_utf8_model(v: &[u8]) -> Result<&str, std::str::Utf8Error> {
+    let mut i = 0;
+    let mut ok = true;
+    while i < v.len() {
+        let b = v[i];
+        if b < 0x80 {
+            i += 1;
+        } else if b >= 0xC2 && b <= 0xDF {
+            if i + 1 < v.len() && (v[i + 1] & 0xC0) == 0x80 {
+                i += 2;
+            } else {
+                ok = false;
+                break;
+            }
+        } else {
+            assert!(b <= 0xBF, "from_utf8 model precondition: only ASCII and 2-byte sequences");
+            ok = false;
+            break;
+        }
+    }
+    if ok {
+        Ok(unsafe { std::str::from_utf8_unchecked(v) })
+    } else {
+        let mut bad = [0xFFu8];
+        match std::str::from_utf8_mut(&mut bad) {
+            Err(e) => Err(e),
+            Ok(_) => unreachable!(),
+        }
+    }
+}
+
+/// bytes the from_utf8 model is exact on
+pub fn utf8_model_byte(b: u8) -> bool {
+    b <= 0xBF || (b >= 0xC2 && b <= 0xDF)
 }
